@@ -13,6 +13,13 @@
 //
 // Part B — the modelled command subset: log + `snaprestore` against the Lean catalogue model,
 // state compared after every step (`chk`).
+//
+// Part C — structured life cycles (measurement create / mark delete / purge / create again,
+// with the policy's and the database's own life cycle around it): every template is run once
+// per cut point, with the snapshot + restore of replica B placed at that position (immediately
+// persisted, and persisted one command later), answers and full dumps compared after every
+// following command; the same log goes to the Lean model with `snaprestore` at the cut. Random
+// logs of parts A and B get such a script spliced in with some probability.
 package c15
 
 import (
@@ -44,6 +51,8 @@ func Run(c *hx.Ctx) error {
 	for li := 0; li < nModel; li++ {
 		modelLog(c, r.Fork(), logLen)
 	}
+	// Part C: structured life cycles, snapshot + restore at every position
+	lifeCycleCuts(c, r.Fork(), kinds)
 	// every registered command type must have been exercised (and must be known to the generator)
 	c.Count(fmt.Sprintf("kinds-exercised:%d-of-%d", len(kinds), len(metax.Kinds())))
 	if missing := metax.UngeneratedTypes(); len(missing) > 0 {
@@ -62,7 +71,19 @@ func fullLog(c *hx.Ctx, r *hx.Rng, logLen int, kinds map[string]bool) {
 		pro = metax.Bootstrap(u)
 	}
 	n := len(pro) + 1 + r.Intn(logLen)
+	// a measurement life cycle spliced into the random commands (35 % of the logs)
+	var script []metax.ScriptStep
+	scriptAt := -1
+	if r.Chance(35) {
+		script = metax.RandomLifeCycle(u, r).Steps
+		scriptAt = len(pro) + r.Intn(n-len(pro))
+		n += len(script)
+		c.Count("lifecycle:scripted-log")
+	}
 	snapAt := r.Intn(n + 1)
+	if scriptAt >= 0 && r.Chance(70) {
+		snapAt = scriptAt + r.Intn(len(script)+2) // inside the life cycle (or right after it)
+	}
 	deferBy := 0
 	if r.Chance(50) {
 		deferBy = 1 + r.Intn(3)
@@ -81,6 +102,11 @@ func fullLog(c *hx.Ctx, r *hx.Rng, logLen int, kinds map[string]bool) {
 		}
 		if i < len(pro) {
 			return pro[i]
+		}
+		if scriptAt >= 0 && i >= scriptAt && len(script) > 0 && r.Chance(80) {
+			cmd := script[0](a.Data())
+			script = script[1:]
+			return cmd
 		}
 		return u.Gen(nil)
 	}
@@ -260,7 +286,17 @@ func modelLog(c *hx.Ctx, r *hx.Rng, logLen int) {
 		pro = metax.Bootstrap(u)
 	}
 	n := len(pro) + 1 + r.Intn(logLen)
+	var script []metax.ScriptStep
+	scriptAt := -1
+	if r.Chance(35) {
+		script = metax.RandomLifeCycle(u, r).Steps
+		scriptAt = len(pro) + r.Intn(n-len(pro))
+		n += len(script)
+	}
 	snapAt := r.Intn(n + 1)
+	if scriptAt >= 0 && r.Chance(70) {
+		snapAt = scriptAt + r.Intn(len(script)+2)
+	}
 	var hist []string
 	for i := 0; i < n; i++ {
 		if i == snapAt {
@@ -281,9 +317,13 @@ func modelLog(c *hx.Ctx, r *hx.Rng, logLen int) {
 			hist = append(hist, "SNAPSHOT+RESTORE")
 		}
 		var cmd metax.Cmd
-		if i < len(pro) {
+		switch {
+		case i < len(pro):
 			cmd = pro[i]
-		} else {
+		case scriptAt >= 0 && i >= scriptAt && len(script) > 0 && r.Chance(80):
+			cmd = script[0](in.Data())
+			script = script[1:]
+		default:
 			cmd = u.Gen(kindsModelled)
 		}
 		if in.PickMatters(cmd) {
@@ -322,4 +362,154 @@ func tooManyGroups(in *metax.Inst) bool {
 		}
 	}
 	return false
+}
+
+// ---- Part C: life cycles, every cut point ---------------------------------------------------
+
+func lifeCycleCuts(c *hx.Ctx, r *hx.Rng, kinds map[string]bool) {
+	type target struct{ db, rp, mst, other string }
+	targets := []target{{"db0", "autogen", "m0", "m1"}}
+	if c.Tier == "thorough" {
+		targets = append(targets, target{"db1", "rp1", "cpu", "mem"}, target{"db0", "rp2", "m2", "m0"})
+	}
+	for _, tg := range targets {
+		pro := metax.LifeCyclePrologue(tg.db, tg.rp)
+		for _, sc := range metax.LifeCycles(tg.db, tg.rp, tg.mst, tg.other) {
+			total := len(pro) + len(sc.Steps)
+			for cut := 0; cut <= total; cut++ {
+				for _, deferBy := range []int{0, 1} {
+					if deferBy > 0 && cut >= total {
+						continue
+					}
+					scriptedLog(c, r.Fork(), sc, pro, cut, deferBy, kinds)
+				}
+				modelScriptedLog(c, sc, pro, cut)
+			}
+		}
+	}
+}
+
+// scriptedLog: prologue + script on two replicas; B is snapshotted before command number `cut`
+// (0-based), the snapshot is persisted `deferBy` commands later, B restores it and replays them.
+func scriptedLog(c *hx.Ctx, r *hx.Rng, sc metax.Script, pro []metax.Cmd, cut, deferBy int, kinds map[string]bool) {
+	ra, rb := r.Fork(), r.Fork()
+	a, b := metax.NewInst(), metax.NewInst()
+	total := len(pro) + len(sc.Steps)
+	header := fmt.Sprintf("note lifecycle %s cut=%d defer=%d", sc.Name, cut, deferBy)
+	ln := c.Emit(header, header)
+	c.Count("lifecycle:cut-run")
+	var hist []string
+	okAfter := 0
+	hb := metax.NewHistory() // what replica B hands out, across its restore
+	var pending []metax.Cmd
+	next := func(i int) metax.Cmd {
+		if len(pending) > 0 {
+			cmd := pending[0]
+			pending = pending[1:]
+			return cmd
+		}
+		if i < len(pro) {
+			return pro[i]
+		}
+		return sc.Steps[i-len(pro)](a.Data())
+	}
+	restore := func(i int) bool {
+		if !snapLine(c, a) {
+			return false
+		}
+		s, err := b.Snapshot()
+		if err != nil {
+			c.Violation(ln, "", "Snapshot failed: "+err.Error())
+			return false
+		}
+		for j := 0; j < deferBy && i+j < total; j++ {
+			// the command is built from A's catalogue before A applied it; B is in the same state
+			cx := next(i + j)
+			pending = append(pending, cx)
+			b.ShuffleMaps(rb)
+			if res := b.Apply(cx); res.Panic {
+				break
+			}
+		}
+		bytes, err := metax.Persist(s)
+		if err == nil {
+			err = b.Restore(bytes)
+		}
+		if err != nil {
+			c.Violation(ln, "", "Persist/Restore failed: "+err.Error())
+			return false
+		}
+		hist = append(hist, fmt.Sprintf("SNAPSHOT(persisted %d commands later)+RESTORE", len(pending)))
+		return true
+	}
+	for i := 0; i < total; i++ {
+		if i == cut && !restore(i) {
+			return
+		}
+		cmd := next(i)
+		if !stepBoth(c, ln, a, b, ra, rb, cmd, &hist, kinds, &okAfter, i >= cut, false) {
+			return
+		}
+		for _, f := range hb.Observe(b.Data(), cmd.Kind) {
+			c.Violation(ln, f.Class, fmt.Sprintf("restored replica: %s after %s", f.Desc, strings.Join(tail(hist, 16), " | ")))
+			return
+		}
+	}
+	if cut == total {
+		if !restore(total) {
+			return
+		}
+		da, db := a.DumpData(), b.DumpData()
+		if da.String() != db.String() {
+			d := metax.Diff(da, db, 4)
+			c.Violation(ln, "", fmt.Sprintf("catalogues differ at %s after %s", strings.Join(d, "; "), strings.Join(tail(hist, 16), " | ")))
+			return
+		}
+	}
+	c.Case(fmt.Sprintf("lifecycle|%s|%d|%d", sc.Name, cut, deferBy), okAfter > 0 && cut > 0 && cut < total)
+}
+
+// modelScriptedLog: the same log against the Lean model, `snaprestore` at the cut.
+func modelScriptedLog(c *hx.Ctx, sc metax.Script, pro []metax.Cmd, cut int) {
+	in := metax.NewInst()
+	c.Emit("reset", "ok")
+	total := len(pro) + len(sc.Steps)
+	snap := func() bool {
+		s, err := in.Snapshot()
+		var bytes []byte
+		if err == nil {
+			bytes, err = metax.Persist(s)
+		}
+		if err == nil {
+			err = in.Restore(bytes)
+		}
+		ln := c.Emit("snaprestore", "ok")
+		if err != nil {
+			c.Violation(ln, "", "snapshot/restore failed: "+err.Error())
+			return false
+		}
+		c.Emit("chk "+metax.ModelDump(in.Data()), "wf "+verdict(in)+" same")
+		return true
+	}
+	for i := 0; i < total; i++ {
+		if i == cut && !snap() {
+			return
+		}
+		var cmd metax.Cmd
+		if i < len(pro) {
+			cmd = pro[i]
+		} else {
+			cmd = sc.Steps[i-len(pro)](in.Data())
+		}
+		res := in.Apply(cmd)
+		c.Emit("cmd "+cmd.Text, res.String())
+		c.Count("model-cmd:" + cmd.Kind)
+		if res.Panic {
+			return
+		}
+		c.Emit("chk "+metax.ModelDump(in.Data()), "wf "+verdict(in)+" same")
+	}
+	if cut == total {
+		snap()
+	}
 }
